@@ -130,6 +130,7 @@ def deep_cases(chk, nschemas, nprobes):
     from . import deep
     rng = chk.rng
     for s, real in deep.schemas(rng, nschemas, 3):
+        s = am.a_schema(real)       # as it reads back now (two regex programs can print the same text)
         seeds = []
         for tape in CONST_TAPES:
             exc, w = valgen.real_fake(real, tape)
